@@ -24,7 +24,10 @@ Definition with_handlers (E : env) (hs : list handler) : env :=
 
 Record dstate := mkD { d_slot : option val; d_tl : list handler; d_ol : list handler; d_alloc : bool;
                        d_quiet : bool; (* HASTRAITS_NO_NOTIFY: obj._trait_change_notify(False) is in force *)
-                       d_kind : tkind  (* the trait's kind / comparison mode NOW: ctrait.comparison_mode can be set at run time *) }.
+                       d_kind : tkind; (* the trait's kind / comparison mode NOW: ctrait.comparison_mode can be set at run time *)
+                       d_fresh : option nat  (* Some n: the default is produced AFRESH each time it is needed (List/Dict/
+                                                Instance(X, ()) defaults, a non-constant _x_default method); n is the identity
+                                                of the next one.  None: the constant default e_default *) }.
 Inductive dop :=
 | DOp (o : op)
 | DRegister (h : handler)        (* on_trait_change(h, "x") / on_trait_change(h) / observe(h, "x") *)
@@ -50,7 +53,7 @@ Section Dyn.
 
   Definition init : dstate :=
     mkD None (filter (fun h => negb (is_obj h)) (e_handlers E)) (filter is_obj (e_handlers E)) (negb (is_nil (e_handlers E)))
-        false (e_kind E).
+        false (e_kind E) None.
 
   (* the reactions triggered by the calls of one operation, in call order *)
   Definition triggered (calls : list call) : list reaction :=
@@ -65,32 +68,44 @@ Section Dyn.
 
   Definition register (st : dstate) (h : handler) : dstate :=
     if has_id (h_id h) (live st) then st                          (* `if notifier.equals(handler): break` *)
-    else if is_obj h then mkD (d_slot st) (d_tl st) (d_ol st ++ [h]) true (d_quiet st) (d_kind st)
-    else mkD (d_slot st) (d_tl st ++ [h]) (d_ol st) true (d_quiet st) (d_kind st).
+    else if is_obj h then mkD (d_slot st) (d_tl st) (d_ol st ++ [h]) true (d_quiet st) (d_kind st) (d_fresh st)
+    else mkD (d_slot st) (d_tl st ++ [h]) (d_ol st) true (d_quiet st) (d_kind st) (d_fresh st).
   Definition unregister (st : dstate) (id : nat) : dstate :=
-    mkD (d_slot st) (drop_ids [id] (d_tl st)) (drop_ids [id] (d_ol st)) (d_alloc st) (d_quiet st) (d_kind st).
+    mkD (d_slot st) (drop_ids [id] (d_tl st)) (drop_ids [id] (d_ol st)) (d_alloc st) (d_quiet st) (d_kind st) (d_fresh st).
+  (* a freshly produced default is used up once it has been seen: stored, or told to a handler as old / new *)
+  Definition seen (d : val) (s' : option val) (calls : list call) : bool :=
+    opt_eqb Nat.eqb s' (Some d)
+    || existsb (fun c : call => (snd c =? d) || match snd (fst c) with OVal o => o =? d | _ => false end) calls.
+  Definition next_fresh (st : dstate) (s' : option val) (calls : list call) : option nat :=
+    match d_fresh st with
+    | Some n => Some (if seen n s' calls then S n else n)
+    | None => None
+    end.
   Definition react (st : dstate) (r : reaction) : dstate :=
     match r with RKill v => unregister st v | RSpawn h => register st h end.
   (* after an operation: new stored value; the (un)registrations done by the called handlers take effect for the NEXT
      operation only — the dispatch itself ran on the snapshot: a handler removed during it was still called, a handler
      added during it was not *)
   Definition settle (st : dstate) (s' : option val) (calls : list call) : dstate :=
-    fold_left react (triggered calls) (mkD s' (d_tl st) (d_ol st) (d_alloc st) (d_quiet st) (d_kind st)).
+    fold_left react (triggered calls) (mkD s' (d_tl st) (d_ol st) (d_alloc st) (d_quiet st) (d_kind st) (next_fresh st s' calls)).
 
-  Definition set_quiet (st : dstate) (q : bool) : dstate := mkD (d_slot st) (d_tl st) (d_ol st) (d_alloc st) q (d_kind st).
+  Definition set_quiet (st : dstate) (q : bool) : dstate :=
+    mkD (d_slot st) (d_tl st) (d_ol st) (d_alloc st) q (d_kind st) (d_fresh st).
   (* an Event has no comparison mode to speak of: setattr_event and the wrappers ignore the bits *)
   Definition set_mode (st : dstate) (m : mode) : dstate :=
-    mkD (d_slot st) (d_tl st) (d_ol st) (d_alloc st) (d_quiet st) (match d_kind st with TNormal _ => TNormal m | TEvent => TEvent end).
+    mkD (d_slot st) (d_tl st) (d_ol st) (d_alloc st) (d_quiet st) (match d_kind st with TNormal _ => TNormal m | TEvent => TEvent end)
+        (d_fresh st).
   (* the environment in force at this moment: live handlers (the snapshot), current kind / mode *)
   Definition env_at (st : dstate) : env :=
-    {| e_eq := e_eq E; e_ne := e_ne E; e_validate := e_validate E; e_default := e_default E; e_kind := d_kind st;
+    {| e_eq := e_eq E; e_ne := e_ne E; e_validate := e_validate E;
+       e_default := match d_fresh st with Some n => n | None => e_default E end; e_kind := d_kind st;
        e_handlers := live st; e_store_original := e_store_original E |}.
   (* trait_set(trait_change_notify=False) ends with an unconditional _trait_change_notify(True) *)
   (* ... and add_trait installs a fresh clone of the ORIGINAL definition: a mode set at run time is lost *)
   Definition after_quiet_assign (o : op) (st : dstate) : dstate :=
     match o with
     | QuietAssign _ => set_quiet st false
-    | Retrait => mkD (d_slot st) (d_tl st) (d_ol st) (d_alloc st) (d_quiet st) (e_kind E)
+    | Retrait => mkD (d_slot st) (d_tl st) (d_ol st) (d_alloc st) (d_quiet st) (e_kind E) (d_fresh st)
     | _ => st
     end.
 
@@ -114,10 +129,14 @@ Section Dyn.
     | DOp o =>
         let '(s', ob) :=
           if d_quiet st then quiet_op st o
-          else if empty_lists_delete st o then (Some (e_default E), silent (Some (e_default E)))
+          else if empty_lists_delete st o then (Some (e_default (env_at st)), silent (Some (e_default (env_at st))))
           else step (env_at st) (d_slot st) o in        (* the snapshot *)
         (after_quiet_assign o (settle st s' (o_calls ob)), ob)
     end.
+
+  (* a trait whose default is produced afresh each time: identities n, n+1, ... *)
+  Definition with_fresh (st : dstate) (n : option nat) : dstate :=
+    mkD (d_slot st) (d_tl st) (d_ol st) (d_alloc st) (d_quiet st) (d_kind st) n.
 
   Fixpoint drun (st : dstate) (ops : list dop) : list (dop * obs) :=
     match ops with
@@ -139,6 +158,12 @@ Section Dyn.
     match o with
     | DOp op => if d_quiet st then []              (* notification switched off by the caller: the statement is silent *)
                 else law_step (env_at st) (d_slot st) op ob
+                     ++ match op with
+                        | Delete =>      (* the new value told on `del` is what a read returns right afterwards: the stored value,
+                                            or — nothing stored — the default the NEXT read would produce *)
+                            chk 6 (forallb (fun c : call => snd c =? readable (env_at (dnext st o ob)) (o_slot ob)) (o_calls ob))
+                        | _ => []
+                        end
     | _ => chk 3 (is_nil (o_calls ob))           (* (un)registering a handler / switching notification is not a change *)
     end.
   Fixpoint dlaw_hist (i : Z) (st : dstate) (h : list (dop * obs)) : list Z :=
